@@ -233,8 +233,14 @@ def run_gen(spec: dict) -> dict:
     calls = {"n": 0}
     real = S._poisson
 
-    def rec(nx, ny, ma, mask, rx, ry, seed):
-        real(nx, ny, ma, mask, rx, ry, seed)
+    KERNEL_PARAMS = ("nx", "ny", "max_attempts", "mask", "radius_x", "radius_y", "seed")
+
+    def rec(*args, **kwargs):
+        # transparent stand-in: any positional / keyword calling convention of the kernel is forwarded unchanged
+        real(*args, **kwargs)
+        bound = dict(zip(KERNEL_PARAMS, args))
+        bound.update(kwargs)
+        nx, ny, ma, mask, rx, ry, seed = (bound[k] for k in KERNEL_PARAMS)
         nxt = int(libc().rand())
         calls["n"] += 1
         # verdict of this bisection step, with the expressions of `poisson` (float glue): 0 within tolerance, 1 below, 2 above
@@ -264,8 +270,14 @@ def run_gen(spec: dict) -> dict:
         orig_poisson = f.poisson
 
         def per_frame(*a, **k):
-            frames.append({"args": [int(a[0]), int(a[1]), float(a[2]), float(a[3])] if len(a) >= 4 else None,
-                           "default_slopes": f.slopes is None})
+            import inspect
+
+            try:
+                b = inspect.signature(orig_poisson).bind(*a, **k).arguments
+                fa = [int(b["num_rows"]), int(b["num_cols"]), float(b["center_fraction"]), float(b["acceleration"])]
+            except (TypeError, KeyError, ValueError):
+                fa = None                        # the wrapper's signature changed: no verdict trace, the call goes through
+            frames.append({"args": fa, "default_slopes": f.slopes is None})
             return orig_poisson(*a, **k)
 
         f.poisson = per_frame
